@@ -1,4 +1,4 @@
-(* Flat group, C09: the flat account read (Basic versions with the code stripped + Code versions +
+(* Flat group, C09: the flat account read (Basic versions with the code stripped (kept for code-less accounts) + Code versions +
    backing store) equals the structured in-order account, code included. No axioms. *)
 From Grevm Require Import Base.Util Flat.Model Flat.ProofsBase Flat.ProofsStorage.
 
@@ -67,6 +67,10 @@ Lemma code_hit_S : forall m a t,
 Proof. intros. unfold code_hit, mv_read. rewrite latest_before_S. now destruct (m (LCode a) t). Qed.
 
 (* ---------------------------------------------------------------- suppression is sound (C09 core) *)
+
+(* the published Basic value has the account fields of the post-state *)
+Lemma strip_publish_info : forall i, strip (publish_info i) = strip i.
+Proof. reflexivity. Qed.
 
 Lemma strip_eq : forall p i, i_bal p = i_bal i -> i_nonce p = i_nonce i -> i_hash p = i_hash i -> strip p = strip i.
 Proof. intros [? ? ? ?] [? ? ? ?]; cbn. intros; subst. reflexivity. Qed.
@@ -213,7 +217,9 @@ Section Block.
               destruct (IB p Ep Hpne) as [IB1 _]. rewrite <- Hh. exact IB1.
           + unfold fill_from. rewrite Hcode, Hne. cbn. exact Hcode.
         - destruct (basic_changed (option_map abasic_of (s_info st a)) i) eqn:Ebc; cbn [option_map e_data].
-          + intros i0 E _. inversion E; subst. now left.
+          + intros i0 E Hne0. inversion E; subst. left.
+            unfold publish_info, empty_code_hash in Hne0. cbn [i_hash] in Hne0.
+            unfold publish_info, empty_code_hash. cbn [i_code i_hash]. now rewrite Hne0.
           + exact ID. }
       destruct (classify acct) as [| |i sl|i sl] eqn:Ecl; cbn [eff_info option_map e_data].
       + auto.
